@@ -34,7 +34,7 @@ void tree_dump(OUT* o, CMR_SEYMOUR_NODE* node)
   CMR_SEYMOUR_NODE_TYPE type = CMRseymourType(node);
   size_t nch = CMRseymourNumChildren(node);
   out_fmt(o, " { %d %d %d %d %d %d %zu", (int) type, CMRseymourIsTernary(node) ? 1 : 0, (int) CMRseymourRegularity(node),
-    (int) CMRseymourGraphicness(node), (int) CMRseymourCographicness(node), type == CMR_SEYMOUR_NODE_TYPE_THREESUM ? (int) node->threesumFlags : 0, nch);
+    (int) CMRseymourGraphicness(node), (int) CMRseymourCographicness(node), 0 /* threesumFlags is never written by the library */, nch);
   size_t np = CMRseymourNumPivots(node);
   out_fmt(o, " P %zu", np);
   for (size_t i = 0; i < np; ++i) { out_size(o, CMRseymourPivotRows(node)[i]); out_size(o, CMRseymourPivotColumns(node)[i]); }
